@@ -38,6 +38,11 @@ Theorem C09_reconf_keeps_keysets : forall (segs : list (config * list hitem)) (w
 Proof. exact @reconf_keeps_keysets. Qed.
 Print Assumptions C09_reconf_keeps_keysets.
 
+Theorem C09_arun_as_history : forall (cfg : config) (h : list aitem) (a b : world),
+       same_state a b -> same_state (arun cfg a h) (fst (run_history cfg b (map as_op h))).
+Proof. exact @arun_as_history. Qed.
+Print Assumptions C09_arun_as_history.
+
 Theorem C09_admin_rotate_is_rotate : forall (cfg : config) (w : world) (r : areq) (fee : Z),
        is_rotation r = Some fee ->
        fst (admin_step w r) = fst (step cfg no_fault w (ORotate fee)) /\ 0 <= fee <= int_max.
